@@ -6,7 +6,7 @@
    after the operation — hence not in a released one (ArenaWrites.v).  Writes to chunk headers are
    not modelled; they, and reads, are monitored on the implementation (poisoning, guard bytes). *)
 From Coq Require Import ZArith List Permutation.
-From BS Require Import Word BumpSpec ChunkSpec Arena ArenaInv ArenaStats ArenaMisc ArenaExt ArenaInv2 ArenaWrites.
+From BS Require Import Word BumpSpec ChunkSpec Arena ArenaInv ArenaStats ArenaMisc ArenaExt ArenaInv2 ArenaWrites ArenaHeader.
 Import ListNotations.
 Open Scope Z_scope.
 
@@ -67,6 +67,23 @@ Theorem C05_result_block_is_live :
   exists blk, In blk (live (fst (step c s0 o r))) /\ bptr blk = p /\ bsize blk = sz.
 Proof. exact result_block_is_live. Qed.
 
+(* the chunk header: inside the granted block, aligned, disjoint from the content range, and no live
+   block overlaps the header of any chunk (ArenaHeader.v) *)
+Theorem C05_header_inside_granted_block :
+  forall c ch, cfg_ok c -> chunk_geom c ch ->
+  (cbase ch <= header_start c ch /\ header_start c ch + hs c <= cbase ch + cgranted ch) /\
+  (ha c | header_start c ch) /\
+  (header_start c ch + hs c <= content_start c ch \/ content_end c ch <= header_start c ch).
+Proof.
+  intros c ch Hc Hg. split; [apply header_inside_granted; assumption|].
+  split; [apply header_aligned; assumption | apply header_disjoint_from_content].
+Qed.
+
+Theorem C05_live_block_misses_every_header :
+  forall c s b k ch, cfg_ok c -> inv c s -> In b (live s) -> nth_error (chunks s) k = Some ch ->
+  disjoint_rng (bptr b) (bsize b) (header_start c ch) (hs c).
+Proof. exact live_block_misses_every_header. Qed.
+
 Print Assumptions C05_drop_releases_each_chunk_once.
 Print Assumptions C05_released_layout_fits.
 Print Assumptions C05_reset_keeps_exactly_last.
@@ -75,3 +92,5 @@ Print Assumptions C05_refused_links_nothing.
 Print Assumptions C05_writes_stay_inside_granted_blocks.
 Print Assumptions C05_shrink_writes_stay_inside_granted_blocks.
 Print Assumptions C05_result_block_is_live.
+Print Assumptions C05_header_inside_granted_block.
+Print Assumptions C05_live_block_misses_every_header.
